@@ -9,11 +9,10 @@
 package main
 
 import (
-	"crypto/sha256"
-	mrand "math/rand"
 	"bufio"
 	"bytes"
 	"context"
+	"crypto/sha256"
 	"encoding/base64"
 	"encoding/binary"
 	"encoding/hex"
@@ -21,6 +20,7 @@ import (
 	"flag"
 	"fmt"
 	"io"
+	mrand "math/rand"
 	"os"
 	"sort"
 	"strconv"
@@ -29,8 +29,8 @@ import (
 
 	"github.com/godaddy/asherah/go/appencryption"
 	"github.com/godaddy/asherah/go/appencryption/pkg/crypto/aead"
-	sdklog "github.com/godaddy/asherah/go/appencryption/pkg/log"
 	"github.com/godaddy/asherah/go/appencryption/pkg/kms"
+	sdklog "github.com/godaddy/asherah/go/appencryption/pkg/log"
 	"github.com/godaddy/asherah/go/appencryption/pkg/persistence"
 	"github.com/godaddy/asherah/go/securememory"
 	"github.com/godaddy/asherah/go/securememory/protectedmemory"
@@ -52,25 +52,25 @@ var out = bufio.NewWriterSize(os.Stdout, 1<<20)
 type world struct {
 	nonces     map[[44]byte]bool // (sha256(key), nonce) pairs of every successful AEAD encryption of this world
 	nonceReuse int
-	logLines []string
-	curPay   []byte
-	inuse0   int64
-	now      time.Time
-	faults   []string
-	calls    []string
-	mats     [][]byte // material bytes by name index
-	retained [][]byte // heap slices that held plaintext key material during the current op
-	secrets  []*trackedSecret
-	inner    securememory.SecretFactory
-	ms       *persistence.MemoryMetastore
-	kms      *kms.StaticKMS
-	crypto   appencryption.AEAD
-	facs     []*appencryption.SessionFactory
-	sess     []*appencryption.Session
-	sessPart []int
-	drrs     []*appencryption.DataRowRecord
-	drrPay   []int
-	dead     bool
+	logLines   []string
+	curPay     []byte
+	inuse0     int64
+	now        time.Time
+	faults     []string
+	calls      []string
+	mats       [][]byte // material bytes by name index
+	retained   [][]byte // heap slices that held plaintext key material during the current op
+	secrets    []*trackedSecret
+	inner      securememory.SecretFactory
+	ms         *persistence.MemoryMetastore
+	kms        *kms.StaticKMS
+	crypto     appencryption.AEAD
+	facs       []*appencryption.SessionFactory
+	sess       []*appencryption.Session
+	sessPart   []int
+	drrs       []*appencryption.DataRowRecord
+	drrPay     []int
+	dead       bool
 }
 
 func (w *world) takeFault() string {
@@ -568,7 +568,9 @@ func (w *world) tail() string {
 }
 
 // mapStore is the caller-side persistence used with Session.Store / Session.Load.
-type mapStore struct{ m map[int]appencryption.DataRowRecord }
+type mapStore struct {
+	m map[int]appencryption.DataRowRecord
+}
 
 func (s *mapStore) Store(_ context.Context, d appencryption.DataRowRecord) (interface{}, error) {
 	k := len(s.m)
@@ -859,15 +861,15 @@ func idOf(k string) string {
 
 type gen struct {
 	noFaults bool
-	rng   *prng.R
-	w     *world
-	nFac  int
-	nSess int
-	open  []int // open session indices
-	sfac  []int // session -> factory
-	facOK []bool
-	exp   []int64
-	rvk   []int64
+	rng      *prng.R
+	w        *world
+	nFac     int
+	nSess    int
+	open     []int // open session indices
+	sfac     []int // session -> factory
+	facOK    []bool
+	exp      []int64
+	rvk      []int64
 }
 
 func (g *gen) line(format string, a ...any) { g.w.exec(fmt.Sprintf(format, a...)) }
@@ -1109,7 +1111,6 @@ func (g *gen) mutation(n int) string {
 	}
 	return "flipdata:0"
 }
-
 
 // ---------------------------------------------------------------------------------------------
 // structured generators
